@@ -350,6 +350,15 @@ func TestKnownFindings(t *testing.T) { evid.RunWitnesses(t, classes) }
 
 // TestNilMapNotMarked: the nil-map half of the empty-map finding was repaired
 // (684b018); a nil map next to another field must agree with the reference.
+// The nil-map half of the empty-map defect was repaired by 684b018; it is
+// listed as a fixed finding and runs as a regression witness.
+func init() {
+	classes = append(classes, evid.Class{Name: "nil-map-written-as-empty-entry", Witness: witness(Case{
+		Schema: ps.Schema{Msgs: []ps.Message{{Fields: []ps.Field{{Num: 1, K: ps.KMap, Key: ps.KString, Val: ps.KInt64}, {Num: 2, K: ps.KInt64}}}}},
+		Items:  []Item{{V: ps.Val{L: []ps.Val{{Nil: true}, num(1)}}}},
+	}, "encode", "nil-map-written-as-empty-entry")})
+}
+
 func TestNilMapNotMarked(t *testing.T) {
 	c := Case{
 		Schema: ps.Schema{Msgs: []ps.Message{{Fields: []ps.Field{{Num: 1, K: ps.KMap, Key: ps.KString, Val: ps.KInt64}, {Num: 2, K: ps.KInt64}}}}},
